@@ -61,6 +61,28 @@ T = {
  "C10D": ([("demo_test.go","proc/mvp6-0/zz_demo_test.go")], ["./proc/mvp6-0/","-run","TestDemoC10B"]),
  "C12C": ([("demo_test.go","proc/mvp6-1/zz_demo_test.go")], ["./proc/mvp6-1/","-run","TestDemoC12A"]),
  "C12D": ([("demo_test.go","proc/mvp2/zz_demo_test.go")], ["./proc/mvp2/","-run","TestDemoC12B"]),
+ # round 3
+ "C02E": ([("demo_test.go","risc/zz_demo_test.go")], ["./risc/","-run","TestDemoC02A"]),
+ "C02F": ([("demo_test.go","risc/zz_demo_test.go")], ["./risc/","-run","TestDemoC02B"]),
+ "C04E": ([("demo_test.go","proc/mvp4/zz_demo_test.go")], ["./proc/mvp4/","-run","TestDemoC04A"]),
+ "C04F": ([("demo_test.go","proc/mvp6-2/zz_demo_test.go")], ["./proc/mvp6-2/","-run","TestDemoC04B"]),
+ "C06E": ([("demo_test.go","proc/mvp7-1/zz_demo_test.go")], ["./proc/mvp7-1/","-run","TestDemoA"]),
+ "C06F": ([("demo_test.go","proc/mvp8-0/zz_demo_test.go")], ["./proc/mvp8-0/","-run","TestDemoB"]),
+ "C07E": ([("demo_test.go","proc/zz_demo_test.go")], ["./proc/","-run","TestDemoA_DivisionByZeroBehindRet"]),
+ "C07F": ([("demo_test.go","proc/zz_demo_test.go")], ["./proc/","-run","TestDemoB_ReloadAfterDirtyL3Eviction"]),
+ "C07G": ([("demo_test.go","proc/zz_demo_test.go")], ["./proc/","-run","TestDemoA_NopOnPipelinedVariants"]),
+ "C10E": ("DIR", ["./mutants/E/demo/","-run","TestStoreThenLoadOnSharedLine"]),
+ "C10F": ("DIR", ["./mutants/F/demo/"]),
+ "C11E": ([("demo_test.go","risc/zz_demo_test.go")], ["./risc/","-run","TestDemoA"]),
+ "C11F": ([("demo_test.go","risc/zz_demo_test.go")], ["./risc/","-run","TestDemoB"]),
+ "C13E": ([("demo_test.go","proc/comp/zz_demo_test.go")], ["./proc/comp/","-run","TestDemoA"]),
+ "C13F": ([("demo_test.go","common/cache/zz_demo_test.go")], ["./common/cache/","-run","TestDemoB"]),
+ "C14E": ([("demo_test.go","proc/comp/zz_demo_test.go")], ["./proc/comp/","-run","TestDemoBufferedBusVisibility"]),
+ "C14F": ([("demo_test.go","proc/zz_demo_test.go")], ["./proc/","-run","TestDemoSimpleBusDrain"]),
+ "C15E": ("DIR", ["./mutants/E/demo/"]),
+ "C15F": ("DIR", ["./mutants/F/demo/"]),
+ "C16E": ([("demo_test.go","common/bytes/zz_demo_test.go")], ["./common/bytes/","-run","TestDemoA"]),
+ "C16F": ([("demo_test.go","proc/mvp4/zz_demo_test.go")], ["./proc/mvp4/","-run","TestDemoB"]),
 }
 def sh(args, cwd, timeout=3600):
     p = subprocess.run(args, cwd=cwd, env=ENV, capture_output=True, text=True, timeout=timeout)
